@@ -105,11 +105,12 @@ def V.eq (q : ValQuirks) (env : Env ν) : V ν → V ν → Bool
   | .map kv1, .map kv2 =>
     if q.mapEqOrdered then eqPairs q env kv1 kv2
     else if q.mapEqOneSided then kv1.length == kv2.length && inclF q env kv1 kv2
-    else inclF q env kv1 kv2 && kv2.all (fun p => hasMatch q env kv1 p)
+    else kv1.length == kv2.length && inclF q env kv1 kv2 && kv2.all (fun p => hasMatch q env kv1 p)
   | .list xs _ _, .map kv => xs.isEmpty && kv.isEmpty
   | .map kv, .list ys _ _ => kv.isEmpty && ys.isEmpty
   | .arglist xs, .arglist ys => if q.argListNeverEqual then false else eqList q env xs ys
   | .notOf v, .notOf w => V.eq q env v w
+  | .parenNull, .parenNull => true
   | _, _ => false
 /-- `Vec<Value> == Vec<Value>` -/
 def eqList (q : ValQuirks) (env : Env ν) : List (V ν) → List (V ν) → Bool
